@@ -216,6 +216,10 @@ def k_case(chk, ctx, c, exps):
     r, e = call(I.Anscombe_Poisson_residual, M, D, mask=mk)
     judge('Anscombe_Poisson_residual', r, e, mod.anscombe(mk, exps), 'cells')
 
+def _fail(chk, key, what, inp):
+    chk.stat('fail:' + key)
+    chk.fail(key, what, inp)
+
 # ------------------------------------------------------------------ L3: the property, written from its statement
 def arrs(S):
     return np.asarray(S.data, dtype=float), np.ma.getmaskarray(S)
@@ -277,7 +281,7 @@ def l3_case(chk, ctx, c, rng):
         got, e = call(I.ll, M0, D)
         chk.l3(('empty-joint', M0.ndim))
         if e is not None or not (got is np.ma.masked or float(got) == 0.0):
-            chk.fail('ll:all-masked', 'no jointly unmasked entry but ll = %r / %r' % (got, e), inp)
+            _fail(chk, 'll:all-masked', 'no jointly unmasked entry but ll = %r / %r' % (got, e), inp)
         chk.stat('l3:empty-joint-set'); return
     if D.folded and not M0.folded:
         for name, f in list(fns.items()) + [('ll_per_bin', I.ll_per_bin), ('linear_Poisson_residual', lambda a, b: I.linear_Poisson_residual(a, b, mask=mk)),
@@ -285,11 +289,11 @@ def l3_case(chk, ctx, c, rng):
             a, ea = call(f, M0, D); b, eb = call(f, M, D)
             chk.l3(('autofold', name, M0.ndim))
             if ea is not None or eb is not None:
-                chk.fail('%s:autofold:raises' % name, '%s raises with folded data: %r / %r' % (name, ea, eb), inp); continue
+                _fail(chk, '%s:autofold:raises' % name, '%s raises with folded data: %r / %r' % (name, ea, eb), inp); continue
             same = np.array_equal(np.ma.getmaskarray(a), np.ma.getmaskarray(b)) and \
                 np.allclose(np.ma.filled(a, 0.), np.ma.filled(b, 0.), rtol=1e-9, atol=1e-12, equal_nan=True)
             if not same:
-                chk.fail('%s:autofold' % name, '%s(model, folded data) differs from %s(model.fold(), folded data)' % (name, name), inp)
+                _fail(chk, '%s:autofold' % name, '%s(model, folded data) differs from %s(model.fold(), folded data)' % (name, name), inp)
     mv, mm = arrs(M); dv, dm = arrs(D)
     joint = ~mm & ~dm
     pos_ok = bool(np.all(mv[joint] > 0)) and joint.any()
@@ -301,34 +305,34 @@ def l3_case(chk, ctx, c, rng):
     got, e = call(I.ll, M, D)
     chk.l3(key + ('ll',))
     if e is not None:
-        chk.fail('ll:raises:%s' % type(e).__name__, 'll raises %r' % e, inp)
+        _fail(chk, 'll:raises:%s' % type(e).__name__, 'll raises %r' % e, inp)
     elif want is None:
         if got is not np.ma.masked and float(got) != 0.0:
-            chk.fail('ll:all-masked', 'no jointly unmasked entry but ll = %r' % (got,), inp)
+            _fail(chk, 'll:all-masked', 'no jointly unmasked entry but ll = %r' % (got,), inp)
     elif got is np.ma.masked or not near(float(got), want, 1e-9 * mag):
-        chk.fail('ll:value', 'll = %r, sum of Poisson log-probabilities over the joint set = %r' % (got, want), inp)
+        _fail(chk, 'll:value', 'll = %r, sum of Poisson log-probabilities over the joint set = %r' % (got, want), inp)
     pb, e = call(I.ll_per_bin, M, D)
     chk.l3(key + ('ll_per_bin',))
     if e is not None:
-        chk.fail('ll_per_bin:raises:%s' % type(e).__name__, 'll_per_bin raises %r' % e, inp)
+        _fail(chk, 'll_per_bin:raises:%s' % type(e).__name__, 'll_per_bin raises %r' % e, inp)
     else:
         if not np.array_equal(np.ma.getmaskarray(pb), ~vis):
-            chk.fail('ll_per_bin:mask', 'visible entries of ll_per_bin are not exactly the entries masked in neither (with model > 0)', inp)
+            _fail(chk, 'll_per_bin:mask', 'visible entries of ll_per_bin are not exactly the entries masked in neither (with model > 0)', inp)
         elif vis.any() and not np.allclose(np.ma.getdata(pb)[vis], poisson_terms(mv[vis], dv[vis]), rtol=1e-9, atol=1e-9 * max(mag, 1e-300)):
-            chk.fail('ll_per_bin:value', 'an entry of ll_per_bin is not the Poisson log-probability', inp)
+            _fail(chk, 'll_per_bin:value', 'an entry of ll_per_bin is not the Poisson log-probability', inp)
     # --- theta
     th_want, j = oracle_theta(M, D)
     th, e = call(I.optimal_sfs_scaling, M, D)
     chk.l3(key + ('theta',))
     th_ok = False
     if e is not None:
-        chk.fail('optimal_sfs_scaling:raises:%s' % type(e).__name__, 'optimal_sfs_scaling raises %r' % e, inp)
+        _fail(chk, 'optimal_sfs_scaling:raises:%s' % type(e).__name__, 'optimal_sfs_scaling raises %r' % e, inp)
     elif th_want is None:
         pass
     elif not math.isfinite(th_want):
         chk.stat('l3:zero-model-sum')
     elif th is np.ma.masked or not math.isfinite(float(th)) or not near(float(th), th_want, 0.0):
-        chk.fail('optimal_sfs_scaling:theta' + tag, 'optimal_sfs_scaling = %r, sum(data)/sum(model) over the entries masked in neither = %r'
+        _fail(chk, 'optimal_sfs_scaling:theta' + tag, 'optimal_sfs_scaling = %r, sum(data)/sum(model) over the entries masked in neither = %r'
                  % (th, th_want), inp)
     else:
         th_ok = True
@@ -337,16 +341,16 @@ def l3_case(chk, ctx, c, rng):
         sc, e = call(I.optimally_scaled_sfs, M, D)
         chk.l3(key + ('scaled',))
         if e is not None:
-            chk.fail('optimally_scaled_sfs:raises:%s' % type(e).__name__, 'raises %r' % e, inp)
+            _fail(chk, 'optimally_scaled_sfs:raises:%s' % type(e).__name__, 'raises %r' % e, inp)
         elif not (np.array_equal(np.ma.getmaskarray(sc), mm) and
                   np.allclose(np.ma.getdata(sc)[~mm], th_want * mv[~mm], rtol=1e-9, atol=0)):
-            chk.fail('optimally_scaled_sfs:value' + tag, 'optimally_scaled_sfs is not (sum(data)/sum(model) over the joint set) * model', inp)
+            _fail(chk, 'optimally_scaled_sfs:value' + tag, 'optimally_scaled_sfs is not (sum(data)/sum(model) over the joint set) * model', inp)
     # --- multinomial likelihood = max over positive rescalings, invariant under rescaling
     if pos_ok and th_want is not None and math.isfinite(th_want) and th_want > 0:
         lm, e = call(I.ll_multinom, M, D)
         chk.l3(key + ('multinom',))
         if e is not None or lm is np.ma.masked:
-            chk.fail('ll_multinom:raises', 'll_multinom raises/masked: %r' % (e,), inp)
+            _fail(chk, 'll_multinom:raises', 'll_multinom raises/masked: %r' % (e,), inp)
         else:
             lm = float(lm)
             worst = None
@@ -359,47 +363,47 @@ def l3_case(chk, ctx, c, rng):
                     if fac == 1.0 and abs(float(v) - lm) > tol and worst is None:
                         worst = (fac, float(v) - lm)
             if worst is not None:
-                chk.fail('ll_multinom:not-max' + tag, 'll_multinom(model, data) = %r but ll(%g*theta_opt*model, data) exceeds/differs by %.3g '
+                _fail(chk, 'll_multinom:not-max' + tag, 'll_multinom(model, data) = %r but ll(%g*theta_opt*model, data) exceeds/differs by %.3g '
                          '(theta_opt = sum(data)/sum(model) over the joint set)' % (lm, worst[0], worst[1]), inp)
             cfac = float(np.exp(rng.uniform(-3, 3)))
             lm2, e3 = call(I.ll_multinom, cfac * M, D)
             chk.l3(key + ('scale_inv',))
             if e3 is not None or lm2 is np.ma.masked or not near(float(lm2), lm, 1e-9 * (mag + abs(lm) + 1.0)):
-                chk.fail('ll_multinom:scale-invariance', 'll_multinom(%g*model) = %r vs %r' % (cfac, lm2, lm), inp)
+                _fail(chk, 'll_multinom:scale-invariance', 'll_multinom(%g*model) = %r vs %r' % (cfac, lm2, lm), inp)
             # Gibbs: model == data*const maximises the multinomial likelihood over all (positive) models
             if np.all(dv[joint] >= 0) and dv[joint].sum() > 0:
                 best = mk_spec(dadi, dv * float(np.exp(rng.uniform(-2, 2))), mm, M.folded)
                 lb, e4 = call(I.ll_multinom, best, D)
                 chk.l3(key + ('gibbs',))
                 if e4 is not None or lb is np.ma.masked:
-                    chk.fail('ll_multinom:gibbs:raises', 'll_multinom(data*const, data) raises/masked %r' % (e4,), inp)
+                    _fail(chk, 'll_multinom:gibbs:raises', 'll_multinom(data*const, data) raises/masked %r' % (e4,), inp)
                 elif float(lb) < lm - 1e-9 * (mag + abs(lm) + 1.0):
-                    chk.fail('ll_multinom:gibbs' + tag, 'll_multinom(data*const, data) = %r < ll_multinom(model, data) = %r' % (lb, lm), inp)
+                    _fail(chk, 'll_multinom:gibbs' + tag, 'll_multinom(data*const, data) = %r < ll_multinom(model, data) = %r' % (lb, lm), inp)
     # --- residuals: documented sign and masking
     tom = ((mv <= mk) & (dv <= mk)) if mk is not None else np.zeros(mv.shape, bool)
     rl, e = call(I.linear_Poisson_residual, M, D, mask=mk)
     chk.l3(key + ('linres', mk is None))
     if e is not None:
-        chk.fail('linear_Poisson_residual:raises:%s' % type(e).__name__, 'raises %r' % e, inp)
+        _fail(chk, 'linear_Poisson_residual:raises:%s' % type(e).__name__, 'raises %r' % e, inp)
     else:
         want_mask = ~joint | (mv < 0) | tom
         if not np.array_equal(np.ma.getmaskarray(rl), want_mask):
-            chk.fail('linear_Poisson_residual:mask', 'masked entries are not: masked in either input, model < 0, or (model <= mask and data <= mask)', inp)
+            _fail(chk, 'linear_Poisson_residual:mask', 'masked entries are not: masked in either input, model < 0, or (model <= mask and data <= mask)', inp)
         else:
             v = ~want_mask & (mv > 0)
             r = np.ma.getdata(rl)
             if v.any() and not np.allclose(r[v], (mv[v] - dv[v]) / np.sqrt(mv[v]), rtol=1e-9, atol=1e-12):
-                chk.fail('linear_Poisson_residual:value', 'not (model - data)/sqrt(model)', inp)
+                _fail(chk, 'linear_Poisson_residual:value', 'not (model - data)/sqrt(model)', inp)
             elif v.any() and not np.array_equal(np.sign(r[v]), np.sign(mv[v] - dv[v])):
-                chk.fail('linear_Poisson_residual:sign', 'sign is not that of model - data', inp)
+                _fail(chk, 'linear_Poisson_residual:sign', 'sign is not that of model - data', inp)
     ra, e = call(I.Anscombe_Poisson_residual, M, D, mask=mk)
     chk.l3(key + ('anscombe', mk is None))
     if e is not None:
-        chk.fail('Anscombe_Poisson_residual:raises:%s' % type(e).__name__, 'raises %r' % e, inp)
+        _fail(chk, 'Anscombe_Poisson_residual:raises:%s' % type(e).__name__, 'raises %r' % e, inp)
     else:
         want_mask = ~joint | (mv <= 0) | (dv <= 0) | tom
         if not np.array_equal(np.ma.getmaskarray(ra), want_mask):
-            chk.fail('Anscombe_Poisson_residual:mask', 'masked entries are not: masked in either input, model <= 0, data <= 0 (data == 0 documented), '
+            _fail(chk, 'Anscombe_Poisson_residual:mask', 'masked entries are not: masked in either input, model <= 0, data <= 0 (data == 0 documented), '
                      'or (model <= mask and data <= mask)', inp)
         else:
             v = ~want_mask
@@ -408,16 +412,16 @@ def l3_case(chk, ctx, c, rng):
                 tr = lambda x: x ** (2. / 3) - x ** (-1. / 3) / 9
                 wantv = 1.5 * (tr(mv[v]) - tr(dv[v])) / mv[v] ** (1. / 6)
                 if not np.allclose(r[v], wantv, rtol=1e-9, atol=1e-12):
-                    chk.fail('Anscombe_Poisson_residual:value', 'not 1.5*(t(model) - t(data))/model^(1/6), t(x) = x^(2/3) - x^(-1/3)/9', inp)
+                    _fail(chk, 'Anscombe_Poisson_residual:value', 'not 1.5*(t(model) - t(data))/model^(1/6), t(x) = x^(2/3) - x^(-1/3)/9', inp)
                 else:
                     clear = np.abs(mv[v] - dv[v]) > 1e-9 * np.maximum(mv[v], dv[v])
                     if not np.array_equal(np.sign(r[v][clear]), np.sign((mv[v] - dv[v])[clear])):
-                        chk.fail('Anscombe_Poisson_residual:sign', 'residual is not positive exactly where the model is high', inp)
+                        _fail(chk, 'Anscombe_Poisson_residual:sign', 'residual is not positive exactly where the model is high', inp)
     # --- the inputs are left as they were (values and masks)
     chk.l3(key + ('inputs',))
     if not (np.array_equal(keep[0], np.asarray(M0.data), equal_nan=True) and np.array_equal(keep[1], np.ma.getmaskarray(M0))
             and np.array_equal(keep[2], np.asarray(D.data), equal_nan=True) and np.array_equal(keep[3], np.ma.getmaskarray(D))):
-        chk.fail('inputs-modified', 'a likelihood/residual function changed the values or the mask of its arguments', inp)
+        _fail(chk, 'inputs-modified', 'a likelihood/residual function changed the values or the mask of its arguments', inp)
     chk.stat('l3:pos_ok=%s' % pos_ok); chk.stat('l3:corner_class=%s' % corner)
 
 # ------------------------------------------------------------------ generators
